@@ -1478,20 +1478,20 @@ Qed.
 
 (* when the analyser checks both rules itself, its rules are the language's rules (`wf`), so the
    model never hands out a definition that builder.Build() refuses *)
-Lemma view_ok_p_all a p w v : view_ok_p a (PChecks true true) p w v = view_ok a p w v.
+Lemma view_ok_p_all a p w v : view_ok_p a (PChecks true true true) p w v = view_ok a p w v.
 Proof. reflexivity. Qed.
-Lemma grant_ok_p_all a p w g : grant_ok_p a (PChecks true true) p w g = grant_ok a p w g.
+Lemma grant_ok_p_all a p w g : grant_ok_p a (PChecks true true true) p w g = grant_ok a p w g.
 Proof. unfold grant_ok_p, grant_ok. destruct (g_what g) as [ | | | | | | | [|] | | ]; reflexivity. Qed.
-Lemma stmt_ok_p_all a p w i : stmt_ok_p a (PChecks true true) p w i = stmt_ok a p w i.
+Lemma stmt_ok_p_all a p w i : stmt_ok_p a (PChecks true true true) p w i = stmt_ok a p w i.
 Proof. destruct i; cbn [stmt_ok_p stmt_ok]; auto using view_ok_p_all, grant_ok_p_all. Qed.
 Lemma forallb_ext' {A} (f g : A -> bool) l : (forall x, f x = g x) -> forallb f l = forallb g l.
 Proof. intros H. induction l; cbn; auto. rewrite H, IHl. auto. Qed.
-Lemma ws_ok_p_all a p w : ws_ok_p a (PChecks true true) p w = ws_ok a p w.
+Lemma ws_ok_p_all a p w : ws_ok_p a (PChecks true true true) p w = ws_ok a p w.
 Proof. reflexivity. Qed.
-Lemma wf_p_all a : wf_p a (PChecks true true) = wf a.
+Lemma wf_p_all a : wf_p a (PChecks true true true) = wf a.
 Proof. reflexivity. Qed.
 
-Theorem compile16_never_invalid_proved r a : compile16_with r (PChecks true true) a <> VInvalid.
+Theorem compile16_never_invalid_proved r a : compile16_with r (PChecks true true true) a <> VInvalid.
 Proof.
   unfold compile16_with, refused. rewrite wf_p_all. destruct (wf a); [|discriminate].
   destruct (no_unique_collision a Go && builder_valid (compile_items a Go)); destruct r; discriminate.
